@@ -51,7 +51,8 @@ class Defs:
                 if a is not None:
                     o = self.origin_place(a, depth + 1, through_calls)
                     o = dict(o)
-                    o.setdefault("via", []).append(c)
+                    o["via"] = list(o.get("via", [])) + [c]
+                    o["via_t"] = list(o.get("via_t", [])) + [(b, payload)]
                     return o
             return {"k": "call", "t": payload, "bb": b, "l": l}
         rv = payload["rv"]
@@ -686,11 +687,12 @@ def origin_deep(d, op, through=()):
     return o
 
 
-def every_iteration_passes(fn, via_bbs):
+def every_iteration_passes(fn, via_bbs, must_visit=None):
     """for each loop (back edges grouped by head) containing one of via_bbs: can an iteration go round (reach a back-edge
     tail from the loop head, staying inside the loop) without passing any of them? Returns the (head, tail) pairs it can.
     Boolean / integer constants assigned on the way are followed through copies, so `ok = false; .. if !ok { break }` does
-    not count as a way round."""
+    not count as a way round; so are enum values built on the way (`x = Some(..); match x { None => .. }`).
+    must_visit: only ways round that pass one of these blocks count (loops are then chosen by containing one of them)."""
     from .facts import op_local as _ol
     out = []
     via = set(via_bbs)
@@ -716,8 +718,15 @@ def every_iteration_passes(fn, via_bbs):
                         val = env[src]
             elif rv["k"] == "un" and rv.get("op") == "Not":
                 a = env.get(_ol(rv["a"]))
-                if a is not None:
+                if a is not None and not isinstance(a, tuple):
                     val = 1 - int(a)
+            elif rv["k"] == "agg" and rv.get("agg") == "adt" and rv.get("vi") is not None:
+                val = ("variant", rv["vi"])
+            elif rv["k"] == "discr":
+                pl = rv.get("place") or {}
+                a = env.get(pl.get("l")) if not pl.get("p") else None
+                if isinstance(a, tuple):
+                    val = a[1]
             if val is None:
                 env.pop(l, None)
             else:
@@ -732,23 +741,24 @@ def every_iteration_passes(fn, via_bbs):
                 hit = [tb for v, tb in t["targets"] if v == cv]
                 succs = hit[:1] if hit else [t["otherwise"]]
         return succs, env
+    mv = set(must_visit or ())
     for hd, tails in sorted(heads.items()):
         body = set()
         for tl in tails:
             body |= fn.natural_loop(tl, hd)
-        if not (via & body) or hd in via:
+        if hd in via or not ((mv & body) if mv else (via & body)):
             continue
-        start = (hd, ())
+        start = (hd, (), hd in mv)
         seen, st = {start}, [start]
         reached = set()
         while st and len(seen) < 20000:
-            x, envt = st.pop()
+            x, envt, vis = st.pop()
             succs, env = step(x, dict(envt))
             for y in succs:
-                if y == hd and x in tails:
+                if y == hd and x in tails and (vis or not mv):
                     reached.add(x)
                 if y in body and y not in via and y != hd:
-                    key = (y, tuple(sorted(env.items())))
+                    key = (y, tuple(sorted(env.items(), key=repr)), vis or y in mv)
                     if key not in seen:
                         seen.add(key)
                         st.append(key)
